@@ -149,6 +149,32 @@ def run(ctx):
                 if any("mirror_addresses" in fc.varnames.get(l, []) for l in v_):
                     okm = True
         r4.check(okm, "attached-to-address", "the collected mirrors become Address.mirrors of that server", "mirror_addresses is not stored in the server's Address")
+        # ... and nothing else does: the list attached to a server is computed from this pool's own configuration in this iteration of the
+        # pools loop; a collection that outlives the iteration would hand one pool's mirrors to another pool
+        heads = loop_headers(fc)
+        defs_of = {}
+        for blk, i, st2 in fc.assigns():
+            if not st2["lhs"]["p"]:
+                defs_of.setdefault(st2["lhs"]["l"], []).append(blk)
+        carried = []
+        n_addr = 0
+        for b_, blk, st2 in F.aggregates("pgcat::config::Address"):
+            if b_ is not fc:
+                continue
+            loops_in = sorted((len(natural_loop(fc, hd)), hd) for hd in heads if blk in natural_loop(fc, hd))
+            if not loops_in:
+                continue
+            pool_loop = natural_loop(fc, loops_in[-1][1])
+            n_addr += 1
+            v_ = set()
+            origins(fc, st2["rv"]["ops"][st2["rv"]["fields"].index("mirrors")], visited=v_, taint=True)
+            for l in sorted(v_):
+                nm = fc.varnames.get(l)
+                if nm and defs_of.get(l) and all(d_ not in pool_loop for d_ in defs_of[l]) and l > len([x for x in fc.var_places if x[2]]):
+                    carried.append(nm[0])
+        r4.check(n_addr >= 1 and not carried, "mirrors-from-this-pool-only", "Address.mirrors is computed inside the pools loop from that iteration's values only (%d Address constructions)" % n_addr,
+                 "Address.mirrors depends on %s, which lives across iterations of the pools loop: the second pool processed inherits the first pool's mirrors for the shard/server indexes they share "
+                 "(its traffic is copied to the other pool's mirror)" % sorted(set(carried)))
     su = ctx.body(STARTUP, r4)
     if su:
         fa = su.calls(MM + "from_addresses")
